@@ -1,7 +1,263 @@
-//! C03 — harness not built yet.
+//! C03 — tokenization is total: never panics, succeeds within the documented limits.
 use crate::common::*;
+use crate::dictutil::*;
+use serde_json::{json, Value};
+use sudachi::analysis::mlist::MorphemeList;
+use sudachi::analysis::stateful_tokenizer::StatefulTokenizer;
+use sudachi::analysis::Mode;
+use sudachi::dic::dictionary::JapaneseDictionary;
+use sudachi::error::SudachiError;
 
-pub fn run(_args: &Args) {
-    eprintln!("no harness for C03 yet");
-    std::process::exit(2);
+const MAX_LENGTH: usize = 49149;
+
+fn configs() -> Vec<(&'static str, Value)> {
+    let pos = json!(["名詞", "普通名詞", "一般", "*", "*", "*"]);
+    let simple = json!({"class": "com.worksap.nlp.sudachi.SimpleOovPlugin", "oovPOS": pos, "leftId": 8, "rightId": 8, "cost": 6000});
+    let numeric = json!({"class": "com.worksap.nlp.sudachi.JoinNumericPlugin", "enableNormalize": true});
+    let katakana = json!({"class": "com.worksap.nlp.sudachi.JoinKatakanaOovPlugin", "oovPOS": pos, "minLength": 3});
+    let default_in = json!({"class": "com.worksap.nlp.sudachi.DefaultInputTextPlugin"});
+    let psm = json!({"class": "com.worksap.nlp.sudachi.ProlongedSoundMarkPlugin", "prolongedSoundMarks": ["ー", "-", "⁓", "〜", "〰"], "replacementSymbol": "ー"});
+    let yomi = json!({"class": "com.worksap.nlp.sudachi.IgnoreYomiganaPlugin", "leftBrackets": ["(", "（"], "rightBrackets": [")", "）"], "maxYomiganaLength": 4});
+    let mecab = json!({"class": "com.worksap.nlp.sudachi.MeCabOovPlugin", "charDef": "char.def", "unkDef": "unk.def", "userPOS": "allow"});
+    let regex = |re: &str, cost: i64| json!({"class": "com.worksap.nlp.sudachi.RegexOovProvider", "oovPOS": ["名詞", "普通名詞", "REGEX", "*", "*", "*"], "leftId": 5, "rightId": 5, "cost": cost, "userPOS": "allow", "regex": re, "maxLength": 400});
+    vec![
+        ("tests", json!({"characterDefinitionFile": "char.def", "inputTextPlugin": [default_in], "oovProviderPlugin": [simple], "pathRewritePlugin": [numeric, katakana]})),
+        ("full", json!({"characterDefinitionFile": "char.def", "inputTextPlugin": [default_in, psm, yomi],
+                        "oovProviderPlugin": [mecab, regex("[-a-zA-Z0-9]+", -32000), simple], "pathRewritePlugin": [numeric, katakana]})),
+        ("regex-empty-match", json!({"characterDefinitionFile": "char.def", "inputTextPlugin": [default_in],
+                        "oovProviderPlugin": [regex("x*", 100), regex("(?:)", 5), simple]})),
+        ("cost-extremes", json!({"characterDefinitionFile": "char.def", "inputTextPlugin": [default_in],
+                        "oovProviderPlugin": [{"class": "com.worksap.nlp.sudachi.SimpleOovPlugin", "oovPOS": pos, "leftId": 0, "rightId": 9, "cost": 32767},
+                                              {"class": "com.worksap.nlp.sudachi.SimpleOovPlugin", "oovPOS": pos, "leftId": 9, "rightId": 0, "cost": -32768}]})),
+    ]
+}
+
+fn unk_def() -> &'static str {
+    "DEFAULT,5,5,3857,補助記号,一般,*,*,*,*\nSPACE,6,6,6056,空白,*,*,*,*,*\nKANJI,7,7,14657,名詞,普通名詞,一般,*,*,*\nKANJI,1,1,17308,名詞,普通名詞,サ変可能,*,*,*\nSYMBOL,2,2,17094,名詞,普通名詞,サ変可能,*,*,*\nNUMERIC,3,3,12450,名詞,数詞,*,*,*,*\nALPHA,4,4,11633,名詞,普通名詞,一般,*,*,*\nHIRAGANA,8,8,16012,名詞,普通名詞,一般,*,*,*\nKATAKANA,9,9,9461,名詞,普通名詞,一般,*,*,*\nKANJINUMERIC,3,3,11354,名詞,数詞,*,*,*,*\nGREEK,4,4,11633,名詞,普通名詞,一般,*,*,*\nCYRILLIC,4,4,11633,名詞,普通名詞,一般,*,*,*\n"
+}
+
+fn nasty() -> Vec<String> {
+    let mut v: Vec<String> = vec![
+        "", "\0", "\0\0a\0", "\u{1}\u{7f}\u{80}\u{9f}", "\u{378}\u{e000}\u{10ffff}\u{fffe}", "e\u{301}\u{301}\u{301}京", "👍🏻京", "👨\u{200d}👩\u{200d}👧\u{200d}👦", "\u{200d}\u{200d}\u{200d}",
+        "\u{3099}\u{309a}か\u{3099}", "ｶﾞｷﾞｸﾞ", "㍿㌔㌘", "\u{fdfa}", "\u{fdfa}\u{fdfa}\u{fdfa}", "ﷺ東京都", "ーーーー", "-----ー〜〜", "東京(とうきょう)都", "漢字（かんじ）（かんじ）", "(((())))", "）（",
+        "1,000.50", "一億二千万", "1.", ".1", "1,,2", "千千", "000", "xxxx", "x", "京都xx京都", "東京都に行った。", "ＡＢＣ１２３", "İstanbul", "ǅ", "ß", "ſ", " ", "\t\n\r", "　", "a b  c",
+        "\u{10000}\u{10001}", "𠮷野家", "\u{e0100}", "葛\u{e0100}城", "\u{feff}abc", "\u{202e}abc", "\u{1f1ef}\u{1f1f5}", "アイウエオカキクケコ", "ｱｲｳ", "特a", "な。な",
+    ]
+    .into_iter()
+    .map(|s| s.to_string())
+    .collect();
+    // combining run longer than 64, class run longer than 64
+    v.push(format!("a{}", "\u{301}".repeat(70)));
+    v.push("ア".repeat(70));
+    v.push("1".repeat(70));
+    v.push(format!("{}京", "\u{200d}".repeat(66)));
+    v
+}
+
+fn long_inputs() -> Vec<(String, String)> {
+    let mut v = vec![];
+    for (name, unit) in [("ascii", "a"), ("hiragana", "あ"), ("kanji-word", "東京都"), ("fdfa-18x", "\u{fdfa}"), ("halfwidth", "ｶﾞ"), ("astral", "𠮷"), ("digits", "1"), ("mark", "ー")] {
+        let ub = unit.len();
+        for target in [MAX_LENGTH - 2 * ub, MAX_LENGTH, MAX_LENGTH + 1, 65535, 65536 + 3] {
+            let n = target / ub;
+            let mut s = unit.repeat(n);
+            while s.len() < target && target <= MAX_LENGTH {
+                s.push('a');
+            }
+            v.push((format!("{}x{} ({} bytes)", name, n, s.len()), s));
+        }
+    }
+    v
+}
+
+fn rand_text(rng: &mut Rng) -> String {
+    let pool = ["東京", "京都", "に", "行っ", "た", "。", "ア", "ー", "1", "2", ",", ".", "a", "Z", " ", "(", ")", "か", "\u{3099}", "\u{301}", "\u{200d}", "👍", "🏻", "ｶ", "ﾞ", "㍿", "\0", "\u{fdfa}", "x", "千", "万", "〇", "-", "〜", "高輪ゲートウェイ", "特", "な", "いく", "いっ"];
+    let n = rng.below(12) + 1;
+    let mut s = String::new();
+    for _ in 0..n {
+        if rng.chance(1, 12) {
+            if let Some(c) = char::from_u32(rng.below(0x11_0000) as u32) {
+                s.push(c);
+            }
+        } else {
+            s.push_str(*rng.pick(&pool[..]));
+        }
+    }
+    s
+}
+
+/// analyse + touch every accessor; Ok(Ok(n morphemes)) / Ok(Err(error text)) / Err(panic)
+fn analyse(dict: &JapaneseDictionary, tok: &mut StatefulTokenizer<&JapaneseDictionary>, mode: Mode, text: &str) -> Result<Result<(usize, bool), String>, String> {
+    catch(|| {
+        tok.set_mode(mode);
+        tok.reset().push_str(text);
+        if let Err(e) = tok.do_tokenize() {
+            return Err(match e {
+                SudachiError::InputTooLong(_, _) => "InputTooLong".to_string(),
+                other => format!("{:?}", other),
+            });
+        }
+        let mut ml = MorphemeList::empty(dict);
+        ml.collect_results(tok).map_err(|e| format!("{:?}", e))?;
+        let mut concat = String::new();
+        let mut sum = 0usize;
+        for m in ml.iter() {
+            concat.push_str(&m.surface());
+            sum += m.part_of_speech().len() + m.dictionary_form().len() + m.normalized_form().len() + m.reading_form().len();
+            sum += m.is_oov() as usize + m.word_id().as_raw() as usize + (m.dictionary_id() + 1) as usize + m.synonym_group_ids().len();
+            sum += m.begin() + m.end() + m.begin_c() + m.end_c() + (m.total_cost() as i64).unsigned_abs() as usize + m.part_of_speech_id() as usize;
+            for sm in [Mode::A, Mode::B] {
+                let sub = m.split(sm).map_err(|e| format!("split: {:?}", e))?;
+                for x in sub.iter() {
+                    sum += x.surface().len() + x.end_c();
+                }
+            }
+        }
+        std::hint::black_box(sum);
+        Ok((ml.len(), concat == text))
+    })
+}
+
+pub fn run(args: &Args) {
+    let mut sink = Sink::new("C03", &args.out, &["Model.Lattice", "Model.BuildCheck"], args.seed, &args.tier);
+    sink.shard_size = 40;
+    sink.rule("configurations {test config, full plugin stack with MeCab+regex+simple OOV, regexes matching the empty string, cost extremes} x modes A/B/C x {fixed hostile strings: NUL, controls, unassigned, astral, combining runs > 64, ZWJ chains, NFKC 18x expanders; lengths around 49,149 / 65,535 bytes; random mixes}; every accessor of every morpheme is called; plus build_lattice model vs lattice dump; non-trivial = non-empty text; distinct by (config, mode, text)");
+    let res = format!("{}/sudachi/tests/resources", repo());
+    let system = std::fs::read(format!("{}/system.dic.test", res)).unwrap();
+    let user = std::fs::read(format!("{}/user.dic.test", res)).unwrap();
+    let dir = args.work.join("res");
+    let _ = std::fs::remove_dir_all(&dir);
+    prepare_resources(&dir, &res).unwrap();
+    std::fs::write(dir.join("unk.def"), unk_def()).unwrap();
+    // the shipped char.def defines every class for the MeCab provider (the test one only DEFAULT and ALPHA)
+    std::fs::copy(format!("{}/resources/char.def", repo()), dir.join("char.def")).unwrap();
+    let mut rng = Rng::new(args.seed);
+
+    let replay_case: Option<Value> = args.replay.as_ref().map(|p| serde_json::from_str::<Value>(&std::fs::read_to_string(p).unwrap()).unwrap()["case"].clone());
+
+    for (cname, cfg) in configs() {
+        if let Some(rc) = &replay_case {
+            if rc["config"].as_str() != Some(cname) {
+                continue;
+            }
+        }
+        let dict = match load_dictionary(&dir, system.clone(), vec![user.clone()], &cfg) {
+            Ok(d) => d,
+            Err(e) => {
+                let id = sink.case_rust_only(json!({"kind": "c03-load", "config": cname}), false);
+                sink.fail(id, &format!("configuration {} did not load: {}", cname, e), "");
+                continue;
+            }
+        };
+        let mut tok = StatefulTokenizer::new(&dict, Mode::C);
+        let mut texts: Vec<(String, String)> = vec![];
+        if let Some(rc) = &replay_case {
+            texts.push(("replay".into(), rc["text"].as_str().unwrap().to_string()));
+        } else {
+            for t in nasty() {
+                texts.push(("hostile".into(), t));
+            }
+            for _ in 0..args.n(150, 3000) {
+                texts.push(("random".into(), rand_text(&mut rng)));
+            }
+            if cname != "cost-extremes" {
+                // (cost extremes x > 32768 tokens is the recorded i32 finding of C02; lengths are exercised with ordinary costs)
+                let li = long_inputs();
+                let take = if args.thorough() { li.len() } else { 10 };
+                let start = (rng.below(li.len() as u64)) as usize;
+                for k in 0..take {
+                    let (n, t) = &li[(start + k * 7) % li.len()];
+                    texts.push((format!("long:{}", n), t.clone()));
+                }
+            }
+        }
+        for (kind, text) in texts {
+            let modes: &[Mode] = if kind.starts_with("long") { &[Mode::C] } else { &[Mode::A, Mode::B, Mode::C] };
+            for mode in modes {
+                let mname = match mode { Mode::A => "A", Mode::B => "B", Mode::C => "C" };
+                let r = analyse(&dict, &mut tok, *mode, &text);
+                let shown: String = if text.len() > 200 { format!("{}… ({} bytes)", text.chars().take(20).collect::<String>(), text.len()) } else { text.clone() };
+                let desc = if text.len() > 2000 { json!({"kind": kind, "config": cname, "mode": mname, "text_desc": shown, "bytes": text.len()}) } else { json!({"kind": kind, "config": cname, "mode": mname, "text": text}) };
+                sink.tag(&format!("cfg={}", cname));
+                sink.tag(kind.split(':').next().unwrap());
+                let id = sink.case_rust_only(desc, !text.is_empty());
+                if replay_case.is_some() {
+                    println!("config={} mode={} text={:?} -> {:?}", cname, mname, shown, r);
+                }
+                match r {
+                    Err(p) => {
+                        sink.tag("outcome=panic");
+                        sink.fail(id, &format!("tokenization or an accessor panicked ({}) for {:?} [{} mode {}]", p, shown, cname, mname), "");
+                        tok = StatefulTokenizer::new(&dict, Mode::C);
+                    }
+                    Ok(Err(e)) => {
+                        sink.tag(&format!("outcome=err:{}", if e == "InputTooLong" { "InputTooLong" } else { "other" }));
+                        if text.len() <= MAX_LENGTH && e != "InputTooLong" {
+                            sink.fail(id, &format!("error {} for an input within the limits with a fallback OOV provider: {:?}", e, shown), "");
+                        }
+                    }
+                    Ok(Ok((_, lossless))) => {
+                        sink.tag("outcome=ok");
+                        if text.len() > MAX_LENGTH {
+                            sink.fail(id, &format!("input of {} bytes (> 49149) was accepted", text.len()), "");
+                        } else if !lossless {
+                            sink.fail(id, &format!("surfaces do not concatenate to the input (truncated result?) for {:?}", shown), "");
+                        }
+                    }
+                }
+            }
+            // build_lattice model vs the lattice the implementation built (short texts only)
+            if text.chars().count() <= 14 && !text.is_empty() && replay_case.is_none() {
+                if let Some(t) = lattice_term(&dict, &mut tok, &text) {
+                    sink.tag("build_model_case");
+                    sink.case(t, json!({"kind": "build-model", "config": cname, "mode": "C", "text": text}), true);
+                }
+            }
+        }
+    }
+    let _ = std::fs::remove_dir_all(&dir);
+    sink.finish();
+}
+
+fn lattice_term(dict: &JapaneseDictionary, tok: &mut StatefulTokenizer<&JapaneseDictionary>, text: &str) -> Option<String> {
+    let conn = dict.grammar().conn_matrix();
+    let (nl, nr) = (conn.num_left(), conn.num_right());
+    let r = catch(|| {
+        tok.set_mode(Mode::C);
+        tok.reset().push_str(text);
+        let res = tok.do_tokenize();
+        let n = tok.verif_input().current_chars().len();
+        if n == 0 {
+            return None;
+        }
+        let eos = match res {
+            Ok(()) => tok.verif_lattice().verif_eos().map(|e| e.2),
+            Err(SudachiError::EosBosDisconnect) => None,
+            Err(_) => return None,
+        };
+        let lat = tok.verif_lattice();
+        let mut nodes = vec![];
+        for end in 0..lat.verif_size() {
+            for nd in lat.verif_nodes(end) {
+                nodes.push(nd);
+            }
+        }
+        nodes.sort_by_key(|x| x.begin);
+        Some((n, nodes, eos))
+    });
+    let (n, nodes, eos) = r.ok()??;
+    let mut data = vec![];
+    for r in 0..nr {
+        for l in 0..nl {
+            data.push(conn.cost(l as u16, r as u16) as i64);
+        }
+    }
+    Some(format!(
+        "check_build {} {} {}%nat {} {}",
+        cnu(nl),
+        clist(data.iter().map(|x| cz(*x))),
+        n,
+        clist(nodes.iter().map(|x| format!("mkNode {}%nat {}%nat {} {} {}", x.begin, x.end, cn(x.left_id), cn(x.right_id), cz(x.cost as i64)))),
+        copt(eos.map(|e| cz(e as i64)))
+    ))
 }
